@@ -119,7 +119,14 @@ func TestFreeRunning(t *testing.T) {
 				}
 			}()
 		}
-		clients.Wait()
+		cdone := make(chan struct{})
+		go func() { clients.Wait(); close(cdone) }()
+		select {
+		case <-cdone:
+		case <-time.After(90 * time.Second):
+			// 8 clients x 6 requests take a few seconds; do not let the churn run on
+			t.Fatalf("round %d: C20.no-answer: the requests did not complete within 90 s", round)
+		}
 		close(stop)
 		mu.Unlock()
 		pw.Write([]byte("xxxxxxxxxxxxxxxxxxxxxxxx"))
